@@ -19,9 +19,20 @@ Definition merge_min (a b : value) : value :=
 Definition merge_affine (a b : value) : value :=
   let w := width_bits b in mkw w ((raw a * 3 + raw b) mod 2 ^ w).
 
-Definition col_num (w : N) (m : value -> value -> value) : column := mkcol true m (mkw w 0) ∅.
-Definition col_str (m : value -> value -> value) : column := mkcol true m (VB []) ∅.
-Definition col_plain : column := mkcol false merge_replace V0 ∅.      (* enum, key, bool *)
+Definition col_num (w : N) (m : value -> value -> value) : column := mkcol true m (mkw w 0) id ∅.
+Definition col_str (m : value -> value -> value) : column := mkcol true m (VB []) id ∅.
+Definition col_plain : column := mkcol false merge_replace V0 id ∅.      (* enum, key, bool *)
+(* the int and uint columns read a put with Reader.Int / Reader.Uint (commit/reader.go:118-141): a
+   2- or 4-byte entry is sign- resp. zero-extended to the column's 64 bits *)
+Definition widen_signed (v : value) : value :=
+  match v with
+  | V2 n | V4 n => if n <? 2 ^ width_bits v then V8 (Z.to_N (signed_view v mod 2 ^ 64)) else v
+  | _ => v
+  end.
+Definition widen_unsigned (v : value) : value :=
+  match v with V2 n | V4 n => V8 n | _ => v end.
+Definition col_int (m : value -> value -> value) : column := mkcol true m (V8 0) widen_signed ∅.
+Definition col_uint (m : value -> value -> value) : column := mkcol true m (V8 0) widen_unsigned ∅.
 
 (* ---- observations ---- *)
 Definition rowobs := (list (N * value) * list N)%type.
